@@ -142,6 +142,24 @@ def run(ctx: Ctx) -> dict:
             g = list(f)
             g[p] = rng.choice(alt)
             events_for(g, cc, rng, ops, False)
+    # every value of the national check digit field (10 or 100 values) for a few bodies per country,
+    # among them bodies whose published digits are the extremes 02, 97, 98 or 0/1/9 - where a test by
+    # congruence instead of by comparison has a second solution (00, 01, 99)
+    names8 = ["account_id", "account_type", "account_code", "account_holder_id", "currency_code",
+              "bank_code", "branch_code", "national_checksum_digits"]
+    by_cc = {}
+    for bd, fx in zip(rb, rfixed):
+        if fx["ok"] and fx["settled"]:
+            by_cc.setdefault(text(bd["cc"]), []).append(text(fx["b"]))
+    for cc, good in sorted(by_cc.items()):
+        a, z = table[cc]["pos"][names8.index("national_checksum_digits")]
+        if z - a not in (1, 2) or not all(c.isdigit() for c in good[0][a:z]):
+            continue
+        extreme = [b for b in good if b[a:z] in ("02", "97", "98", "00", "01", "99", "0", "1", "9")]
+        for b in extreme[:4 if ctx.quick else 40] + good[:2 if ctx.quick else 20]:
+            for v in range(10 ** (z - a)):
+                g = b[:a] + str(v).zfill(z - a) + b[z:]
+                ops.append({"op": "iban.new", "t": cps(iban_of(cc, g)), "vb": True})
     # all other countries are unaffected by the flag
     others = [r for cc, r in sorted(table.items()) if cc not in NAT and cc != "DE" and gen.row_classes(r)]
     for row in others:
